@@ -25,6 +25,9 @@ pub struct Cfg {
     pub file: u64,
     pub block: usize,
     pub reuse: bool,
+    /// size limit of each of the levels 1..=5 in bytes (0 = RainDB's defaults of 10 MiB x 10^(l-1));
+    /// small values let a bounded exploration fill the deep levels (hook `set_level_size_limits`)
+    pub level_limit: u64,
 }
 
 impl Cfg {
@@ -34,15 +37,21 @@ impl Cfg {
             file,
             block,
             reuse,
+            level_limit: 0,
         }
+    }
+    pub const fn with_level_limit(mut self, bytes: u64) -> Self {
+        self.level_limit = bytes;
+        self
     }
     pub fn name(&self) -> String {
         format!(
-            "mem{}_file{}_blk{}_{}",
+            "mem{}_file{}_blk{}_{}{}",
             self.memtable,
             self.file,
             self.block,
-            if self.reuse { "reuse" } else { "noreuse" }
+            if self.reuse { "reuse" } else { "noreuse" },
+            if self.level_limit > 0 { format!("_levels{}", self.level_limit) } else { String::new() }
         )
     }
     pub fn parse(s: &str) -> Option<Cfg> {
@@ -60,6 +69,9 @@ impl Cfg {
             "R" => Cfg::new(200, 300, 16, reuse),
             "M2b" => Cfg::new(M2_MEMTABLE, 1 << 20, 4096, reuse),
             "D" => Cfg::new(4 << 20, 2 << 20, 4096, reuse),
+            // every level 1..=5 overflows with its second ~150-byte file: data cascades to level 6
+            "L" => Cfg::new(4 << 20, 300, 1, reuse).with_level_limit(250),
+            "L1" => Cfg::new(4 << 20, 1, 1, reuse).with_level_limit(250),
             _ => return None,
         })
     }
@@ -250,6 +262,7 @@ pub fn value_for(stamp: u64, key_idx: u8, class: u8, cfg: &Cfg) -> Vec<u8> {
 pub fn db_options(fs: &VerifFs, cfg: &Cfg) -> DbOptions {
     // every field spelled out: `DbOptions::default()` allocates an 8 Mi-entry cache table and
     // asks the OS for the current directory
+    raindb::verif::set_level_size_limits(cfg.level_limit, 100);
     DbOptions {
         db_path: DB_PATH.to_string(),
         max_memtable_size: cfg.memtable,
